@@ -727,28 +727,31 @@ func checkAndPropagateArgsForUnionWithReturnT(
 			return nil, err
 		}
 
+		// methodTs point into the shared method table: accumulate on copies
+		currentT := methodTs[idx].DeepCopy()
+
 		if returnT == nil {
-			returnT = methodTs[idx]
+			returnT = currentT
 
 			continue
 		}
 
 		if returnT.IsUnionType() {
-			returnT.AppendVariant(*methodTs[idx])
+			returnT.AppendVariant(*currentT)
 
 			continue
 		}
 
-		if methodTs[idx].IsUnionType() {
-			methodTs[idx].AppendVariant(*returnT)
+		if currentT.IsUnionType() {
+			currentT.AppendVariant(*returnT)
 
-			returnT = base.MakeUnion(methodTs[idx].GetVariants())
+			returnT = base.MakeUnion(currentT.GetVariants())
 
 			continue
 		}
 
-		if !returnT.IsMatchType(methodTs[idx]) {
-			returnT = base.MakeUnion([]base.T{*returnT, *methodTs[idx]})
+		if !returnT.IsMatchType(currentT) {
+			returnT = base.MakeUnion([]base.T{*returnT, *currentT})
 
 			continue
 		}
